@@ -396,6 +396,24 @@ int main()
       yr_get_configuration_uint32(YR_CONFIG_MAX_MATCH_DATA, &c);
       printf(" cfg_stack=%u cfg_mspr=%u cfg_mmd=%u", a, b, c);
     }
+    else if (!strcmp(cmd, "settimeout"))
+    {
+      // reads back the nanosecond deadline stored by yr_scanner_set_timeout (no need to wait real seconds)
+      YR_COMPILER* c = NULL; YR_RULES* r = NULL; YR_SCANNER* sc = NULL;
+      yr_compiler_create(&c);
+      yr_compiler_add_string(c, "rule t { condition: true }", NULL);
+      yr_compiler_get_rules(c, &r);
+      yr_scanner_create(r, &sc);
+      char* vals = strdup(get("s", "0")); char* save = NULL;
+      for (char* t = strtok_r(vals, ",", &save); t; t = strtok_r(NULL, ",", &save))
+      {
+        int v = (int) strtol(t, 0, 10);
+        yr_scanner_set_timeout(sc, v);
+        printf(" %d:%llu", v, (unsigned long long) sc->timeout);
+      }
+      free(vals);
+      yr_scanner_destroy(sc); yr_rules_destroy(r); yr_compiler_destroy(c);
+    }
     else if (!strcmp(cmd, "ml")) cmd_ml();
     else if (!strcmp(cmd, "fib")) cmd_fib();
     else if (!strcmp(cmd, "re")) cmd_re();
